@@ -258,6 +258,18 @@ func HC20_Resources() {
 		}
 		m.observe()
 	}
+	// a second world that registers the resource types in another order is independent
+	{
+		w2 := ecs.NewWorld()
+		rb2 := NewResource[hRb](&w2)
+		ra2 := NewResource[hRa](&w2)
+		vAssert(rb2.ID() == ecs.ResourceID[hRb](&w2) && ra2.ID() == ecs.ResourceID[hRa](&w2), "generic.Resource resolves the resource ID of its own world")
+		vAssert(!rb2.Has() && !ra2.Has(), "resources of one world are not visible in another")
+		pb := &hRb{V: 5}
+		rb2.Add(pb)
+		vAssert(ecs.GetResource[hRb](&w2) == pb && rb2.Get() == pb && !ra2.Has(), "a resource added through generic.Resource is the one the world reports")
+		vAssert(ecs.GetResource[hRa](&w2) == nil, "Get of an absent resource is nil")
+	}
 	// resource ids are independent of component ids
 	vAssert(len(ecs.ComponentIDs(w)) <= 2, "resource registrations do not consume component ids")
 	vReach("end")
